@@ -314,7 +314,60 @@ def _(v):
             rr, pp = bs(rs_, ps_)
             okf, det = feasible(list(rr.values()) + list(pp.values())), "%s -> %s" % (dict(rr), dict(pp))
         except ValueError as e:
+            rr = pp = None
             okf, det = (not has_positive_solution), "refused: %s" % e
         v.prove("default_mode_answer_admits_positive_coefficients." + label, okf, detail=det)
+        if rr is not None:
+            # 'balanced identically in any free parameter': the signed element totals vanish as polynomials in the parameters
+            import sympy
+            from chempy.chemistry import Substance as _S
+            tot = {}
+            for side, sign in ((rr, -1), (pp, 1)):
+                for key, coeff in side.items():
+                    for el, n_el in _S.from_formula(key).composition.items():
+                        tot[el] = tot.get(el, 0) + sign * sympy.sympify(coeff) * n_el
+            v.prove("default_mode_answer_is_balanced_identically." + label, all(sympy.expand(x) == 0 for x in tot.values()), detail=repr({k: str(x) for k, x in tot.items() if sympy.expand(x) != 0}))
     r, p = bs(["H3.5", "HO2Cl3.5"], ["HO2.5", "H2.5Cl"])
     v.prove("fractional_compositions_balanced_exactly", (dict(r), dict(p)) == ({"H3.5": 171, "HO2Cl3.5": 70}, {"HO2.5": 56, "H2.5Cl": 245}))
+
+
+@harness("C02", "smallest_integers_helper", functions=["chempy.chemistry:_solve_balancing_ilp_pulp"], kind="data")
+def _(v):
+    """chempy's own integer program (x >= 1 integer, A x = 0, minimise sum x; the solver CBC is external) against an independent brute force over
+    small signed composition matrices: the returned vector is feasible and has the brute-force minimal coefficient sum; for an infeasible matrix the
+    returned vector is not a solution (so that the caller's residual check must refuse it)"""
+    import itertools
+    import random
+    import sympy
+    from chempy.chemistry import _solve_balancing_ilp_pulp
+    rng = random.Random(2)
+    cases, bad, infeasible = 0, [], 0
+    mats = [[[-1, 0, 1, 1], [0, -2, 1, 2]], [[-1, 0, 1, 2], [0, -2, 1, 3]], [[-2, 0, 2], [0, -2, 1]], [[-1, -1, 2]], [[1, 1, 1]], [[-3, 0, 1], [0, -3, 2], [-1, -1, 1]]]
+    while len(mats) < 40:
+        r, c = rng.choice([1, 2, 2, 3]), rng.choice([3, 4, 4, 5])
+        nreac = rng.randint(1, c - 1)
+        mats.append([[(-1 if j < nreac else 1) * rng.choice([0, 0, 1, 1, 2, 3]) for j in range(c)] for _ in range(r)])
+    for rows in mats:
+        A = sympy.Matrix(rows)
+        n = A.shape[1]
+        best = None
+        for x in itertools.product(range(1, 9), repeat=n):
+            if all(sum(a * b for a, b in zip(row, x)) == 0 for row in rows):
+                if best is None or sum(x) < sum(best):
+                    best = x
+        try:
+            got = _solve_balancing_ilp_pulp(A)
+        except Exception as ex:
+            got = repr(ex)
+        cases += 1
+        is_solution = isinstance(got, list) and all(g is not None and abs(g - round(g)) < 1e-9 and round(g) >= 1 for g in got) and all(sum(a * round(b) for a, b in zip(row, got)) == 0 for row in rows)
+        if best is not None:
+            if not is_solution or sum(round(g) for g in got) != sum(best):
+                bad.append((rows, got, best))
+        else:
+            # nothing with coefficients <= 8: either truly infeasible (then no solution may be claimed) or a larger solution (then it must be one)
+            infeasible += 1
+            if isinstance(got, list) and not is_solution and all(g is not None for g in got) and all(sum(a * round(b) for a, b in zip(row, got)) == 0 for row in rows):
+                bad.append((rows, got, "claimed"))
+    v.prove("feasible_matrices_get_a_solution_of_minimal_coefficient_sum", not bad, detail=repr(bad[:3]))
+    v.prove("both_kinds_exercised", cases == 40 and 3 <= infeasible <= 37, detail="%d infeasible of %d" % (infeasible, cases))
